@@ -229,4 +229,13 @@ def no_stale_cache(repo: Repo) -> RuleRun:
 
 no_stale_cache.rule_id = "C14.NO-STALE-CACHE"
 
-RULES = [edge_set, side_table, uniform, face_symmetry, no_stale_cache]
+def trig_domain(repo: Repo) -> RuleRun:
+    """'unchanged by rotating the geometry': the angle terms take arccos of cosines that cannot leave [-1, 1] by rounding - otherwise a regular cell is 'degenerate' in some orientations only."""
+    from ..domain import inverse_trig_rule
+
+    return inverse_trig_rule(repo, PROP, "C14.TRIG-DOMAIN", ('optimize.cell',), floor=2)
+
+
+trig_domain.rule_id = "C14.TRIG-DOMAIN"
+
+RULES = [edge_set, side_table, uniform, face_symmetry, no_stale_cache, trig_domain]
